@@ -46,8 +46,11 @@ _built = False
 
 
 def build_harness():
-    """Always rebuild from /repo's current working tree (cargo decides what is stale)."""
-    global _built
+    """Always rebuild from /repo's current working tree (cargo decides what is stale).
+    VERIF_REPO=<dir> (not used by the registered commands) builds against another checkout of
+    saphyr instead, from a copy of the harness crate, so that a long exploration can run on a
+    snapshot while /repo is being edited."""
+    global _built, VH
     if _built:
         return
     os.makedirs(WORK, exist_ok=True)
@@ -55,7 +58,17 @@ def build_harness():
     if not os.path.exists(lock):
         shutil.copy("/repo/Cargo.lock", lock)
     env = {"CARGO_NET_OFFLINE": "true"}
-    rc, out, err, dt = sh(["cargo", "build", "--offline", "--profile", "verif", "--quiet"], cwd=os.path.join(VERIF, "harness"), env=env, check=False, timeout=1800)
+    hdir = os.path.join(VERIF, "harness")
+    alt = os.environ.get("VERIF_REPO")
+    if alt and os.path.abspath(alt) != "/repo":
+        hdir = os.path.join(WORK, "harness_alt")
+        shutil.rmtree(hdir, ignore_errors=True)
+        shutil.copytree(os.path.join(VERIF, "harness"), hdir)
+        t = open(os.path.join(hdir, "Cargo.toml")).read().replace("/repo/", os.path.abspath(alt) + "/")
+        open(os.path.join(hdir, "Cargo.toml"), "w").write(t)
+        open(os.path.join(hdir, ".cargo", "config.toml"), "w").write('[net]\noffline = true\n[build]\ntarget-dir = "../target_alt"\n')
+        VH = os.path.join(WORK, "target_alt", "verif", "vh")
+    rc, out, err, dt = sh(["cargo", "build", "--offline", "--profile", "verif", "--quiet"], cwd=hdir, env=env, check=False, timeout=1800)
     if rc != 0:
         raise ToolError("harness build failed:\n" + err[-6000:])
     _built = True
